@@ -1,4 +1,6 @@
 import BS.Model.KV
+import BS.Model.Table
+import BS.Model.Part
 import Driver.C17
 namespace Driver.C09
 open BS.KV Driver
@@ -22,20 +24,29 @@ def addKeys (keys : List Int) (seen : List Int) (len cap : Nat) : List Int × Na
       let len := len + 1
       (k :: seen, len, if len > thr cap then cap * 2 else cap)) (seen, len, cap)
 
+/-- `frame.HashWithSeed(i, hashSeed)` of an int64 key column (exec/combiner.go:43,154) -/
+def cfHash (k : Int) : Nat := (BS.Part.hashRow 0x9acb0442 [.w64 (BS.Hash.intToU64 k)]).toNat
+
+def showSlots (tb : BS.Table.T) : String :=
+  joinWith "," ((List.range tb.cap).filterMap fun i => (tb.slots i).map fun kv => s!"{i}:{kv.1}:{kv.2}")
+
 def runCF (ws : List String) (ops : List (List String)) (obs : String) : String × String × Bool :=
   let cap0 := toNat! (ws.getD 1 "1")
-  let step (acc : List KV × List Int × Nat × Nat × List String) (op : List String) :=
-    let (rows, seen, len, cap, outs) := acc
+  -- the hash table model is stepped row by row; `rows`/`seen`/`len`/`cap` are the independent list-level account
+  let step (acc : List KV × List Int × Nat × Nat × Option BS.Table.T × List String) (op : List String) :=
+    let (rows, seen, len, cap, tb, outs) := acc
     match op with
     | "combine" :: kvs =>
       let new := parseKVs kvs
       let (seen, len, cap) := addKeys (new.map (·.1)) seen len cap
-      (rows ++ new, seen, len, cap, outs ++ [s!"len={len} cap={cap} thr={thr cap}"])
+      let tb := tb.bind fun t => BS.Table.combineAll (· + ·) cfHash t new
+      let slots := match tb with | some t => showSlots t | none => "TABLE-FULL"
+      (rows ++ new, seen, len, cap, tb, outs ++ [s!"len={len} cap={cap} thr={thr cap} slots={slots}"])
     | ["compact"] =>
       let m := foldMap (· + ·) rows
-      ([], [], 0, cap, outs ++ [s!"rows={joinWith ";" (m.map showKV)} len=0"])
+      ([], [], 0, cap, tb.map (fun t => BS.Table.empty t.cap), outs ++ [s!"rows={joinWith ";" (m.map showKV)} len=0"])
     | _ => acc
-  let (_, _, _, _, outs) := ops.foldl step ([], [], 0, cap0, [s!"thr={thr cap0}"])
+  let (_, _, _, _, _, outs) := ops.foldl step ([], [], 0, cap0, some (BS.Table.empty cap0), [s!"thr={thr cap0}"])
   let model := joinWith " # " outs
   -- the property speaks about the rows; length/capacity/threshold are compared as the tie only
   let rowsOf (s : String) : List String := (s.splitOn " # ").filterMap fun seg =>
